@@ -235,3 +235,51 @@ func isBackslashConst(v ssa.Value) bool {
 	c, ok := v.(*ssa.Const)
 	return ok && c.Value != nil && c.Value.Kind() == constant.String && constant.StringVal(c.Value) == "\\"
 }
+
+// RunCutset — R-CUTSET (C10): printed values come back byte for byte. strings.Trim / TrimLeft / TrimRight take a SET of
+// characters, not a prefix or suffix: a constant cutset of two or more different non-blank characters applied on the
+// output path (the String/Dump methods of the object types, the evaluator) removes characters that belong to the value
+// — `TrimRight(s, ", ")` meant to drop a trailing separator also eats a trailing comma or blank of the last element.
+func (m *Model) RunCutset(s *Sink, rule string) {
+	n := 0
+	for _, fn := range m.ModFns {
+		if fn.Blocks == nil {
+			continue
+		}
+		if sp := shortPkg(fnPkgPath(fn)); sp != "object" && sp != "evaluator" {
+			continue
+		}
+		for _, b := range fn.Blocks {
+			for _, in := range b.Instrs {
+				c, ok := in.(*ssa.Call)
+				if !ok || c.Call.StaticCallee() == nil || len(c.Call.Args) != 2 {
+					continue
+				}
+				name := fnFullName(c.Call.StaticCallee())
+				if name != "strings.Trim" && name != "strings.TrimLeft" && name != "strings.TrimRight" {
+					continue
+				}
+				cut, isConst := constOfValue(c.Call.Args[1])
+				if !isConst {
+					continue // a cutset given by the template (trim built-ins): the set semantics is the documented one
+				}
+				distinct := map[rune]bool{}
+				for _, r := range cut {
+					if r != ' ' && r != '\t' && r != '\n' && r != '\r' {
+						distinct[r] = true
+					}
+				}
+				blanks := len(cut) > 0 && len(distinct) == 0
+				if blanks || (len(distinct) == 1 && len([]rune(cut)) == 1) {
+					continue
+				}
+				n++
+				s.Violation(rule, fmt.Sprintf("%s|%s with the character set %q", fnKey(fn), name, cut), m.InstrPos(c),
+					"%s calls %s with the constant cutset %q on the output path: every trailing/leading character of that SET is removed, not the separator string — characters that belong to the printed value (a trailing comma or blank of the last element) disappear", fnKey(fn), name, cut)
+			}
+		}
+	}
+	if n == 0 {
+		s.OK(rule, "object, evaluator|no multi-character constant cutset on the output path", "-", "no call of strings.Trim/TrimLeft/TrimRight with a constant set of several different characters in the object and evaluator packages")
+	}
+}
